@@ -2,6 +2,7 @@ SPECIFICATION MCSpec
 CONSTANTS
   Cases = {}
   W64 = 0
+  SplitFee = TRUE
   W32 = 0
   BW = 1000
   Bases = {0, 1, 13}
@@ -9,5 +10,5 @@ CONSTANTS
   IBaseMags = {0, 1, 7}
   IRateMags = {0, 1, 999, 1000, 500000, 999999, 1000000}
   Heights = {0, 100, 800000}
-INVARIANTS TypeOK DecisionAgrees F5Free F5bFree AcceptOnlyIf NoLoss FeeOperatorsExact BoolFormIsSetForm
+INVARIANTS TypeOK DecisionAgrees F5Free F5bFree AcceptOnlyIf NoLoss FeeOperatorsExact
 CHECK_DEADLOCK FALSE
